@@ -373,7 +373,9 @@ func LeafFlag(a *Atom) *Expr { return &Expr{Kind: ELeaf, Leaf: &Leaf{Kind: "flag
 // SymLines installs symbolic line numbers: Λ strictly increasing, Λ(1) ≥ 1.
 // It returns the map function and the term for the total number of lines N
 // (Λ(last) ≤ N).
-func SymLines(c *interp.Ctx, nlines int) (func(int) interp.Value, []string, string) {
+// With shared set, consecutive rendered lines may lie on the same source line
+// (L is non-decreasing): several constructs written on one line.
+func SymLines(c *interp.Ctx, nlines int, shared bool) (func(int) interp.Value, []string, string) {
 	terms := make([]string, nlines+2)
 	prev := ""
 	for k := 1; k <= nlines; k++ {
@@ -382,7 +384,11 @@ func SymLines(c *interp.Ctx, nlines int) (func(int) interp.Value, []string, stri
 		if prev == "" {
 			c.Assume(fmt.Sprintf("(>= %s 1)", v.T))
 		} else {
-			c.Assume(fmt.Sprintf("(> %s %s)", v.T, prev))
+			if shared {
+				c.Assume(fmt.Sprintf("(>= %s %s)", v.T, prev))
+			} else {
+				c.Assume(fmt.Sprintf("(> %s %s)", v.T, prev))
+			}
 		}
 		prev = v.T
 	}
